@@ -363,3 +363,143 @@ def oracle(ops, reads, replies):
                     o[0], o[1], "" if len(o) < 3 else (" = " + repr(o[2])), t, rep, " or ".join(exp)), kind))
         prev = cur
     return out
+
+
+# ---------------------------------------------------------------- several objects of one request
+SCOPE_OBJS = {"RECV": ["req"], "HASH": ["req"], "HIT": ["req", "obj"], "MISS": ["req", "bereq"], "PASS": ["req", "bereq"],
+              "FETCH": ["req", "bereq", "beresp"], "ERROR": ["req", "obj"], "DELIVER": ["req", "resp"], "LOG": ["req", "resp"]}
+MULTI_SCOPES = ["HIT", "MISS", "PASS", "FETCH", "ERROR", "DELIVER", "LOG"]
+# walks through the state machine; a response object may be rebuilt from another on the way
+PATHS = [["MISS", "FETCH", "DELIVER", "LOG"], ["PASS", "FETCH", "DELIVER", "LOG"], ["HIT", "DELIVER", "LOG"],
+         ["MISS", "FETCH", "ERROR", "DELIVER", "LOG"], ["RECV", "HASH", "MISS", "FETCH", "DELIVER"], ["RECV", "ERROR", "DELIVER"],
+         ["FETCH"], ["MISS"], ["PASS"], ["DELIVER", "LOG"], ["FETCH", "DELIVER"]]
+DERIVE_ON_ENTRY = {"DELIVER": ["resp<beresp", "resp<obj"], "HIT": ["obj<beresp"], "ERROR": ["obj<beresp"]}
+
+
+def multi_reads(scope, names=None, keys=("a",)):
+    out = []
+    for ob in SCOPE_OBJS[scope]:
+        for a, b in (names or NAMES):
+            out.append(("g", "%s.%s" % (ob, a)))
+            out.append(("g", "%s.%s" % (ob, b)))
+            for k in keys:
+                out.append(("g", "%s.%s:%s" % (ob, b, k)))
+    return out
+
+
+def whole_value(rng):
+    q = rng.random()
+    if q < 0.3:
+        return b""
+    if q < 0.4:
+        return None
+    if q < 0.7:
+        return token(rng)
+    return dict_value(rng, KEYS)
+
+
+def multi_op(rng, scope):
+    ob = rng.choice(SCOPE_OBJS[scope])
+    name = rng.choice(rng.choice(NAMES))
+    r = rng.random()
+    if r < 0.45:
+        return ("s", "%s.%s" % (ob, name), whole_value(rng))
+    if r < 0.6:
+        return ("s", "%s.%s:%s" % (ob, name, rng.choice(["a", "A", "bc"])), rng.choice([b"", None, safe_value(rng)]))
+    if r < 0.72:
+        return ("a", "%s.%s" % (ob, name), rng.choice([b"", token(rng), None]))
+    if r < 0.9:
+        return ("u", "%s.%s" % (ob, name))
+    return ("u", "%s.%s:%s" % (ob, name, rng.choice(["a", "bc"])))
+
+
+def multi_history(rng):
+    """(pre-ops on req, ops): ops walk a path of scopes, 0-4 operations per scope on any object writable there,
+    every mutating step followed by the reads of every object of the current scope"""
+    pre = []
+    for _ in range(rng.choice([0, 1, 1, 2, 3])):
+        o = multi_op(rng, "RECV")
+        pre.append(o)
+        pre.extend(multi_reads("RECV"))
+    ops = []
+    for sc in rng.choice(PATHS):
+        ops.append(("@", sc))
+        if sc in DERIVE_ON_ENTRY and rng.random() < 0.6:
+            ops.append(("d", rng.choice(DERIVE_ON_ENTRY[sc])))
+        ops.extend(multi_reads(sc))
+        for _ in range(rng.randint(0, 4)):
+            ops.append(multi_op(rng, sc))
+            ops.extend(multi_reads(sc))
+    return pre, ops
+
+
+def multi_small_ops(scope):
+    out = []
+    for ob in SCOPE_OBJS[scope]:
+        for n in ("Foo", "fOO"):
+            for v in (b"x", b"", None):
+                out.append(("s", "%s.%s" % (ob, n), v))
+                out.append(("a", "%s.%s" % (ob, n), v))
+                out.append(("s", "%s.%s:a" % (ob, n), v))
+            out.append(("u", "%s.%s" % (ob, n)))
+            out.append(("u", "%s.%s:a" % (ob, n)))
+    return out
+
+
+def mwire(ops):
+    out = []
+    for o in ops:
+        if o[0] == "@":
+            out.append("@" + o[1])
+        elif o[0] == "d":
+            out.append("d " + o[1])
+        elif o[0] in ("g", "u"):
+            out.append("%s %s" % (o[0], o[1]))
+        else:
+            out.append("%s %s %s" % (o[0], o[1], enc_val(o[2])))
+    return ";".join(out)
+
+
+def oracle_multi(pre, ops, replies):
+    """Direct oracle (no model) for several objects: an operation on one object changes no read of any other
+    object; a rebuilt object reads what its source reads (an empty value reads as not set); switching the scope
+    changes nothing.  replies = the reply items for pre + ['|'] + ops."""
+    out = []
+    known = {}           # "obj.target" -> last reply
+    seq = list(pre) + [("|",)] + list(ops)
+    last = None          # the last mutating step
+    for o, rep in zip(seq, replies):
+        if o[0] == "|":
+            # bereq (and the response objects) are rebuilt from req: what is known about them is void
+            exp = {}
+            for t, v in known.items():
+                if t.startswith("req."):
+                    exp["bereq." + t[4:]] = v if (":" in t or (v.startswith("S") and len(v) > 1)) else "N"
+            known = {t: v for t, v in known.items() if t.startswith("req.")}
+            known.update(exp)
+            last = ("rebuild", "bereq")
+            continue
+        if o[0] == "g":
+            t = o[1]
+            if t in known and known[t] != rep and last is not None:
+                ob = t.split(".", 1)[0]
+                if last[1] != ob:
+                    out.append("%s changed the read of %s (another object): %s -> %s" % (last[0], t, known[t], rep))
+            known[t] = rep
+            continue
+        if o[0] == "@":
+            continue
+        if o[0] == "d":
+            dst, src = o[1].split("<")
+            exp = {}
+            for t, v in known.items():
+                if t.startswith(src + "."):
+                    exp[dst + "." + t[len(src) + 1:]] = v if (":" in t or (v.startswith("S") and len(v) > 1)) else "N"
+            known = {t: v for t, v in known.items() if not t.startswith(dst + ".")}
+            # what the rebuilt object must read is checked as a change made by "another object" = the derive itself
+            for t, v in exp.items():
+                known[t] = v
+            last = ("d " + o[1], "-derive-")
+            continue
+        last = ("%s %s%s" % (o[0], o[1], "" if len(o) < 3 else " = %r" % (o[2],)), o[1].split(".", 1)[0])
+    return out
